@@ -395,10 +395,14 @@ pub fn gen_faults(rng: &mut Rng, stream: &Stream, n: usize, enabled: u32) -> Vec
                                         }
                                         _ => {
                                             if s.kind_name(*kind) == "LiteralSpecConstantOpInteger" {
-                                                v = match rng.below(4) {
+                                                v = match rng.below(6) {
                                                     0 => 0x10000 | *cur,
                                                     1 => s.insts[rng.usize_below(s.insts.len())].opcode as u32,
                                                     2 => 0xFFFF,
+                                                    // the nested opcode written like the first word of an instruction: a word
+                                                    // count in the high half (exactly / about the words that follow)
+                                                    3 => (((ilen - k) as u32) << 16) | *cur,
+                                                    4 => ((rng.range(1, 8) as u32) << 16) | *cur,
                                                     _ => rng.below(0x20000) as u32,
                                                 };
                                             }
